@@ -1,5 +1,6 @@
 import DdsModel.Drv.C09
-namespace Dds.Drv
+namespace Dds.Drv.C18
+open Dds.Drv.C09
 open Dds
 
 def parseDefect (s : String) : Option Defect :=
@@ -70,4 +71,8 @@ def runC18 (line : String) : String :=
   | "R" :: t => runR t
   | _ => "bad-case"
 
+end Dds.Drv.C18
+
+namespace Dds.Drv
+def runC18 : String → String := C18.runC18
 end Dds.Drv
